@@ -19,11 +19,13 @@ def make_plan(ths, tier, rnd):
         bodies, r = histories.exhaustive_bodies(theory, sig, api, n if n <= 2 else 2, 4 if thorough else 3,
                                                 3 if thorough else 2, 1, 4, f"c01-gen-{theory}")
         plan.add_gen(r)
-        for b in bodies:
+        cap = 2000 if thorough else 250
+        chosen = bodies if len(bodies) <= cap else rnd.sample(bodies, cap)
+        for b in chosen:
             plan.add(theory, b)
         for _ in range(120 if thorough else 25):
             plan.add(theory, histories.random_history(sig, api, rnd, rnd.randint(4, 14), n))
-        plan.notes[theory] = {"exhaustive_histories": len(bodies)}
+        plan.notes[theory] = {"enumerated_histories": len(bodies), "replayed_of_those": len(chosen)}
     return plan
 
 
